@@ -1262,10 +1262,12 @@ class RepositoryPackCollection:
             )
         self._remove_pack_indices(self._new_pack)
         any_new_content = False
+        allocated = []
         if self._new_pack.data_inserted():
             # get all the data to disk and read to use
             self._new_pack.finish()
             self.allocate(self._new_pack)
+            allocated.append(self._new_pack)
             self._new_pack = None
             any_new_content = True
         else:
@@ -1278,15 +1280,26 @@ class RepositoryPackCollection:
             self._remove_pack_from_memory(resumed_pack)
             resumed_pack.finish()
             self.allocate(resumed_pack)
+            allocated.append(resumed_pack)
             any_new_content = True
         del self._resumed_packs[:]
         if any_new_content:
-            result = self.autopack()
-            if not result:
-                # when autopack takes no steps, the names list is still
-                # unsaved.
-                return self._save_pack_names()
-            return result
+            try:
+                result = self.autopack()
+                if not result:
+                    # when autopack takes no steps, the names list is still
+                    # unsaved.
+                    return self._save_pack_names()
+                return result
+            except BaseException:
+                # The commit failed while publishing: forget the packs that
+                # were allocated for it, or the next write group committed
+                # through this object would list them in pack-names.
+                for pack in allocated:
+                    current = self._packs_by_name.get(pack.name)
+                    if current is not None and pack.name in self._names:
+                        self._remove_pack_from_memory(current)
+                raise
         return []
 
     def _suspend_write_group(self):
